@@ -105,7 +105,12 @@ TreeSeqs == {[kind |-> "treeseq", tsteps |-> st, cfg |-> [dir |-> "t", ext |-> "
                        <<Step3("A", "L1", "p"), Step3("A", "L2", "p"), Step3("A", "L1", "q")>>,
                        <<Step3("one", "L", "p"), Step3("", "L", "p"), Step3("two", "", "")>>,
                        <<Step3("B", "L2", "q"), Step3("A", "L1", "p")>>}}
-Cases == RenderCases \cup TreeCases \cup SeqCases \cup DataTrees \cup TreeSeqs
+\* failing Responses in a row under configurations that differ in the debug flag: what Response writes depends on the
+\* configuration in force, not on what was written before (same flag, same body; no message or path with the flag off)
+RespSeqs == {[kind |-> "respseq", files |-> <<F("bad", "x{{ 1 / 0 }}"), F("bad2", "y{{ zz }}")>>, cfg |-> [dir |-> "t", ext |-> ".tw"], debugs |-> ds, pages |-> ps,
+              tags |-> <<"c14", "responses-in-a-row">>] :
+               ds \in {<<TRUE, FALSE>>, <<FALSE, TRUE, FALSE>>, <<TRUE, TRUE, FALSE, FALSE>>, <<FALSE, FALSE>>}, ps \in {<<"bad", "bad", "bad", "bad">>, <<"bad", "bad2", "bad", "bad2">>}}
+Cases == RenderCases \cup TreeCases \cup SeqCases \cup DataTrees \cup TreeSeqs \cup RespSeqs
 Init == cas \in Cases /\ rec = FALSE
 Next == ~rec /\ rec' = TRUE /\ UNCHANGED cas
 Spec == Init /\ [][Next]_vars
